@@ -1,7 +1,7 @@
 (* C19 — A configuration accepted at start-up cannot crash or corrupt replies later.
    setup4/setup6 model every stateless plugin's setup function over ANY argument vector (any
    strings, any arity) and ANY answers of the text parsers (oracles O). *)
-From Verif Require Import Base BaseProofs Net NetProofs Msg4 Msg6 Chain ChainProofs Server4 Server4Proofs Server6 Server6Proofs Plugins4 Plugins6 Setup PluginRun PluginProofs PluginSpecs PluginExamples Opt4Codec Opt4Proofs Msg4Codec Msg4CodecProofs.
+From Verif Require Import Base BaseProofs Net NetProofs Msg4 Msg6 Chain ChainProofs Server4 Server4Proofs Server6 Server6Proofs Plugins4 Plugins6 Setup PluginRun PluginProofs PluginSpecs PluginExamples Opt4Codec Opt4Proofs Msg4Codec Msg4CodecProofs PrefixPlugin PrefixProofs PrefixTheorems.
 Open Scope N_scope.
 
 Theorem setup4_ok_handler_safe :
@@ -57,6 +57,12 @@ Theorem msg4_roundtrip :
   forall (m : msg4) (b : bytes), wf_msg m -> enc_msg m = Ok b -> dec_msg b = Some (wire_msg m).
 Proof. exact (@Msg4CodecProofs.msg4_roundtrip). Qed.
 Print Assumptions msg4_roundtrip.
+
+Theorem prefix_pool_must_be_ipv6 :
+  forall (pip pmask : bytes) (size : Z) (st : pstate),
+  prefix_setup pip pmask size = Ok st -> length pip = 16%nat.
+Proof. exact (@PrefixTheorems.prefix_setup_ok_ipv6). Qed.
+Print Assumptions prefix_pool_must_be_ipv6.
 
 (* Non-vacuity (proofs/PluginExamples.v): accepted configurations exist *)
 Example hypotheses_satisfiable :
